@@ -207,6 +207,13 @@ def run_cg(case):
     try:
         with _tap() as tap:
             real = make_controller(case["ctrl"])
+            if case.get("reuse"):
+                # the same controller object has served an earlier minimisation: `start` must reset all of its state
+                pre = m.QuadraticEnergy(m.makeField(dom, x0 + 8.0 * (np.arange(n) + 1)), opA, fb)
+                try:
+                    m.ConjugateGradient(_recorder(real), nreset=case["nreset"])(pre, preconditioner=opP)
+                except Runaway:
+                    pass
             rec = _recorder(real)
             E0 = m.QuadraticEnergy(m.makeField(dom, x0), opA, fb)
             n0 = len(opA.calls)
@@ -274,14 +281,22 @@ def run_ctrl(case):
     except Exception as e:
         return {"error": type(e).__name__}
     with _tap():
+        for i, (gn, gi, v) in enumerate(case.get("pre") or []):     # an earlier use of the same controller object
+            e = _StubE(float(F(gn)), float(F(gi)), float(F(v)))
+            try:
+                c.start(e) if i == 0 else c.check(e)
+            except Exception:
+                break
         for i, (gn, gi, v) in enumerate(case["obs"]):
             e = _StubE(float(F(gn)), float(F(gi)), float(F(v)))
             try:
                 st = c.start(e) if i == 0 else c.check(e)
+                res.append([int(st), int(c._itcount), int(c._ccount)])
             except ZeroDivisionError:
                 raised = True
                 break
-            res.append([int(st), int(c._itcount), int(c._ccount)])
+            except Exception as ex:       # anything else: canonical error kind, shows up as a disagreement
+                return {"error": type(ex).__name__}
     return {"res": res, "raised": raised}
 
 
@@ -302,6 +317,17 @@ def run_ie(case):
             real = make_controller(case["ctrl"])
             rec = _recorder(real)
             ie = m.InversionEnabler(op, rec, approximation=ap)
+            if case.get("reuse"):
+                # InversionEnabler keeps one controller object for all of its applications
+                try:
+                    ie.apply(m.makeField(dom, x * 0 + 8.0 * (np.arange(n) + 1)), case["mode"])
+                except Exception:
+                    pass
+                rec.rec.clear()
+                tap.msgs.clear()
+                op.calls.clear()
+                if ap is not None:
+                    ap.calls.clear()
             y = ie.apply(m.makeField(dom, x), case["mode"])
             cap = int(ie.capability)
     except Exception as e:
@@ -309,4 +335,5 @@ def run_ie(case):
     return dict(y=y.val.asnumpy().copy(), recs=rec.rec, ncalls=len(op.calls), cap=cap,
                 itcount=getattr(real, "_itcount", None), ccount=getattr(real, "_ccount", None),
                 warned=any("Error detected during operator inversion" in s for s in tap.msgs), msgs=tap.msgs,
-                modes=[c[0] for c in op.calls], apmodes=[] if ap is None else [c[0] for c in ap.calls])
+                modes=[c[0] for c in op.calls], apmodes=[] if ap is None else [c[0] for c in ap.calls],
+                calls=list(op.calls))
